@@ -5,6 +5,7 @@ import vlib
 TARGETS = ["Base/Num.vo", "Base/Corr.vo", "C16/Model.vo", "C16/Spec.vo", "C16/ProofsMax.vo", "C16/ProofsEM.vo",
            "C16/ProofsModel.vo", "C16/Corr.vo", "C16/ProofsCorr.vo", "C16/ModelHmm.vo", "C16/ProofsBW.vo",
            "C16/ProofsBW2.vo", "C16/ProofsBW3.vo", "C16/ProofsClamp.vo", "C16/Corr2.vo", "C16/ModelVec.vo", "C16/Corr3.vo", "C16/ProofsCorr3.vo", "C16/ProofsVec.vo", "C16/ProofsDet.vo",
+           "C16/ModelNest.vo", "C16/ProofsNest.vo", "C16/Corr5.vo",
            "C16/SpecTest.vo", "C16/Props.vo"]
 PROPS = ["C16/Props.v"]
 CORPUS = os.path.join(vlib.ROOT, "corpus/C16/corpus.jsonl")
@@ -14,6 +15,8 @@ PROPOSED = os.path.join(vlib.ROOT, "corpus/C16/known_findings_proposed.json")
 CORPUS3 = os.path.join(vlib.ROOT, "corpus/C16/corpus3.jsonl")
 VCLAMP_WITNESS = os.path.join(vlib.ROOT, "corpus/C16/vclamp_witness.json")
 KINDS3 = ("vnormal", "sid", "siid", "negbin", "logreg", "emnormal")
+CORPUS5 = os.path.join(vlib.ROOT, "corpus/C16/corpus5.jsonl")
+KINDS5 = ("nest", "summ")
 PARTIAL = ("Theorems are over exact real arithmetic (Coq Reals) about the hand-written models coq/C16/Model.v / ModelHmm.v / ModelVec.v "
            "with ONE worker thread; the step to binary64 is bounded per sampled case only (bit-exact replay of the scalar and the "
            "vector normal estimator, 1e-9 tolerance decided in Q for the log-scale families, the negative binomial closed form, "
@@ -39,7 +42,14 @@ PARTIAL = ("Theorems are over exact real arithmetic (Coq Reals) about the hand-w
            "(converged) theta is below 2^-20 — and scalarEstimator/numeric.go (NumericEstimator) is not exercised. EM with normal "
            "components: single-step replay in 100-bit rationals from Go's hook state (argument of exp evaluated in binary64 and checked "
            "against its exact value to 2^-40), unweighted data, plain MixtureEstimator. The normal perturbation checks are skipped for "
-           "ill-conditioned data (exact variance < 2^-20 E[x^2]) where E[x^2]-E[x]^2 cancels in binary64.")
+           "ill-conditioned data (exact variance < 2^-20 E[x^2]) where E[x^2]-E[x]^2 cancels in binary64. "
+           "Nested estimators (round 5): mixture-of-mixtures ascent is proved for ONE level of nesting with exact leaf M-steps; for a mixture "
+           "used as HMM emission only the inner step is proved (nested_hmm_emission_step_partial: the composition with the Baum-Welch theorem "
+           "over the (sequence, position) index is not carried out); the summarised = unsummarised theorems are over R for summaries given as "
+           "index maps, linked to the executable summary by summary_index_is_sound and compared with NewMixtureSummarizedDataSet per case; the "
+           "HmmSummarizedDataSet (not reachable from any estimator) is not modelled; the nested tie replays the REFERENCE run (no summary) "
+           "step by step (Baum-Welch part of the larger HMM cases in binary64) and compares the run on the configuration as given with it "
+           "(error iff the model's guard refuses; otherwise the same trajectory to 1e-7); one leaf family per case, <= 3 leaves per inner mixture.")
 
 
 def findings():
@@ -60,7 +70,7 @@ def known_case(case):
 
 
 def corr(ctx, binary, n):
-    for pat in ("r2_*.v", "cert_r2_*.v", "r3_*.v", "cert_r3_*.v", "grad_r3_*.v"):
+    for pat in ("r2_*.v", "cert_r2_*.v", "r3_*.v", "cert_r3_*.v", "grad_r3_*.v", "r5_*.v", "cert_r5_*.v"):
         for old in glob.glob(os.path.join(ctx.dir, pat)):
             os.remove(old)
     rc, out = vlib.run_harness(ctx, binary, n, extra=CORPUS)
@@ -68,8 +78,10 @@ def corr(ctx, binary, n):
     rc2, out2 = vlib.run_harness(ctx, binary, n2, extra="round2:" + CORPUS2)
     n3 = 70 if ctx.tier == "quick" else 1200
     rc3, out3 = vlib.run_harness(ctx, binary, n3, extra="round3:" + CORPUS3)
-    if rc != 0 or rc2 != 0 or rc3 != 0:
-        ctx.violation({"obligation": "C16 harness run", "log": (out if rc != 0 else out2 if rc2 != 0 else out3)[-3000:]}, False,
+    n5 = 48 if ctx.tier == "quick" else 600
+    rc5, out5 = vlib.run_harness(ctx, binary, n5, extra="round5:" + CORPUS5)
+    if rc != 0 or rc2 != 0 or rc3 != 0 or rc5 != 0:
+        ctx.violation({"obligation": "C16 harness run", "log": (out if rc != 0 else out2 if rc2 != 0 else out3 if rc3 != 0 else out5)[-3000:]}, False,
                       "harness failed on the implementation (crash while running the estimators)")
         return [], []
     meta = json.load(open(os.path.join(ctx.dir, "cases.meta.json")))
@@ -78,20 +90,25 @@ def corr(ctx, binary, n):
     vlib.merge_meta(ctx, meta2)
     meta3 = json.load(open(os.path.join(ctx.dir, "r3.meta.json")))
     vlib.merge_meta(ctx, meta3)
+    meta5 = json.load(open(os.path.join(ctx.dir, "r5.meta.json")))
+    vlib.merge_meta(ctx, meta5)
     key = lambda p: int(p.rsplit("_", 1)[1][:-2])
     shards = sorted(glob.glob(os.path.join(ctx.dir, "cases_*.v")), key=key)
     shards2 = sorted(glob.glob(os.path.join(ctx.dir, "r2_*.v")), key=key)
     shards3 = sorted(glob.glob(os.path.join(ctx.dir, "r3_*.v")), key=key)
+    shards5 = sorted(glob.glob(os.path.join(ctx.dir, "r5_*.v")), key=key)
     certs = sorted(glob.glob(os.path.join(ctx.dir, "cert_*.v")))
     grads = sorted(glob.glob(os.path.join(ctx.dir, "grad_r3_*.v")), key=key)
     entries = ([(p, "s1", k) for k, p in enumerate(shards)] + [(p, "s2", k) for k, p in enumerate(shards2)] +
-               [(p, "s3", k) for k, p in enumerate(shards3)] + [(p, "cert", 0) for p in certs] +
+               [(p, "s3", k) for k, p in enumerate(shards3)] + [(p, "s5", k) for k, p in enumerate(shards5)] +
+               [(p, "cert", 0) for p in certs] +
                [(p, "grad", key(p)) for p in grads])
     res = vlib.eval_shards([e[0] for e in entries])
     ctx.oblige(len(res), sum(1 for r in res if r["ok"]))
     cases = vlib.load_jsonl(os.path.join(ctx.dir, "cases.jsonl"))
     cases2 = vlib.load_jsonl(os.path.join(ctx.dir, "r2.jsonl"))
     cases3 = vlib.load_jsonl(os.path.join(ctx.dir, "r3.jsonl"))
+    cases5 = vlib.load_jsonl(os.path.join(ctx.dir, "r5.jsonl"))
 
     def offsets(sizes):
         off = [0]
@@ -99,6 +116,7 @@ def corr(ctx, binary, n):
             off.append(off[-1] + z)
         return off
     off2, off3 = offsets(meta2["shard_sizes"]), offsets(meta3["shard_sizes"])
+    off5 = offsets(meta5["shard_sizes"])
     bad, known = [], []
     for (path, kind, k), r in zip(entries, res):
         if r["ok"]:
@@ -114,7 +132,9 @@ def corr(ctx, binary, n):
                     if kind == "cert" else "correspondence shard did not evaluate")
             ctx.violation({"obligation": "shard " + os.path.basename(r["path"]), "coqc_error": r["error"]}, False, what)
             continue
-        if kind == "s3":
+        if kind == "s5":
+            ms = [cases5[off5[k] + i] for i in r["mism"]]
+        elif kind == "s3":
             ms = [cases3[off3[k] + i] for i in r["mism"]]
         elif kind == "s2":
             ms = [cases2[off2[k] + i] for i in r["mism"]]
@@ -129,8 +149,10 @@ def corr(ctx, binary, n):
         if all(known_case(c) for c in ms):
             ctx.discharged += 1   # every mismatch of the shard is a recorded finding
     ctx.log("correspondence: %d + %d (Baum-Welch) + %d (round 3: vector normal, products, negative binomial, logistic regression, "
-            "normal-mixture EM) cases in %d shards (+%d exp-table certificates, %d gradient certificates), %d mismatching, %d known" % (
-        len(cases), len(cases2), len(cases3), len(shards) + len(shards2) + len(shards3), len(certs), len(grads), len(bad), len(known)))
+            "normal-mixture EM) + %d (round 5: nested estimators / summarised data) cases in %d shards (+%d exp-table certificates, "
+            "%d gradient certificates), %d mismatching, %d known" % (
+        len(cases), len(cases2), len(cases3), len(cases5), len(shards) + len(shards2) + len(shards3) + len(shards5), len(certs),
+        len(grads), len(bad), len(known)))
     for c in bad[:12]:
         ctx.log("  mismatching case: %s" % c.get("tag", c.get("kind")))
     return bad, known
@@ -140,7 +162,8 @@ def hunt(ctx, binary, bad):
     rp = os.path.join(ctx.dir, "hunt_in.json")
     lag = json.load(open(LAG_WITNESS)) if os.path.exists(LAG_WITNESS) else None
     vcl = json.load(open(VCLAMP_WITNESS)) if os.path.exists(VCLAMP_WITNESS) else None
-    json.dump({"cases": [c for c in bad if c.get("kind") != "hmm" and c.get("kind") not in KINDS3][:50],
+    json.dump({"cases": [c for c in bad if c.get("kind") != "hmm" and c.get("kind") not in KINDS3 + KINDS5][:50],
+               "cases5": [c for c in bad if c.get("kind") in KINDS5][:40],
                "cases2": [c for c in bad if c.get("kind") == "hmm"][:20],
                "cases3": [c for c in bad if c.get("kind") in KINDS3][:40],
                "lag_witness": lag, "vclamp_witness": vcl}, open(rp, "w"))
